@@ -12,7 +12,7 @@ import (
 
 type c07Params struct {
 	Kind      string // target request kind
-	Stage     string // sameseg | separate | afterreply | unknown | executing | twoflush | flushflush | sametag
+	Stage     string // sameseg | separate | afterreply | unknown | executing | twoflush | flushflush | flushflush2 | flushflush3 | sametag
 	FlushMode string // none | cancel | ignore
 	Gated     bool   // target parks in the implementation
 	Rel       string // free (releaser races) | late (released only after quiescence)
@@ -115,6 +115,13 @@ func c07Scenario(p c07Params) Scenario {
 			// two flushes of the same Tflush: both are owed an Rflush
 			o.flushTag = []uint16{fTag2, fTag3}
 			s.c.Send(p.Dotu, o.target, flush(fTag, tTag), flush(fTag2, fTag), flush(fTag3, fTag))
+		case "flushflush3":
+			// the target already has a Tflush chained to it when a second Tflush of it arrives
+			// together with a Tflush of that second one: the first and the third are owed an Rflush
+			o.flushTag = []uint16{fTag3, fTag2}
+			s.c.Send(p.Dotu, o.target, flush(fTag3, tTag))
+			vs.Idle()
+			s.c.Send(p.Dotu, flush(fTag, tTag), flush(fTag2, fTag))
 		case "sametag":
 			o.flushTag = []uint16{fTag}
 			s.c.Send(p.Dotu, older)
@@ -155,7 +162,7 @@ func c07Scenario(p c07Params) Scenario {
 				replied = true
 			}
 		}
-		if p.Stage == "sametag" || p.Stage == "unknown" || p.Stage == "flushflush" {
+		if p.Stage == "sametag" || p.Stage == "unknown" || p.Stage == "flushflush" || p.Stage == "flushflush3" {
 			replied = true // cancellation claims are not evaluated for these stages
 		}
 		isErr := func(r *wire.Msg, text string) bool { return r != nil && r.Type == wire.Rerror && strings.Contains(r.Ename, text) }
@@ -227,7 +234,7 @@ func c07Scenario(p c07Params) Scenario {
 				return v(fmt.Sprintf("rflush-count-%d/stage=%s", nrflush[t], p.Stage), fmt.Sprintf("Tflush tag %d got %d Rflush replies (parked: %+v)", t, nrflush[t], x.Parked))
 			}
 		}
-		if (p.Stage == "flushflush" || p.Stage == "flushflush2") && nrflush[fTag] > 1 {
+		if (p.Stage == "flushflush" || p.Stage == "flushflush2" || p.Stage == "flushflush3") && nrflush[fTag] > 1 {
 			return v("rflush-count-2/flushed-flush", "a flushed Tflush got more than one Rflush")
 		}
 		nT := 1
@@ -242,7 +249,7 @@ func c07Scenario(p c07Params) Scenario {
 				return v("target-no-reply/stage="+p.Stage, "request that was not (effectively) flushed got no reply")
 			}
 		}
-		if p.Stage != "unknown" && p.Stage != "flushflush" && rflushOff >= 0 {
+		if p.Stage != "unknown" && p.Stage != "flushflush" && p.Stage != "flushflush3" && rflushOff >= 0 {
 			for _, f := range treply {
 				if p.Stage == "sametag" {
 					break
@@ -252,7 +259,7 @@ func c07Scenario(p c07Params) Scenario {
 				}
 			}
 		}
-		cancelled := len(treply) == 0 && p.Stage != "sametag" && p.Stage != "unknown" && p.Stage != "flushflush"
+		cancelled := len(treply) == 0 && p.Stage != "sametag" && p.Stage != "unknown" && p.Stage != "flushflush" && p.Stage != "flushflush3"
 		if cancelled {
 			for _, e := range s.fs.calls(0, tTag, 0) {
 				if e.Seq > rflushSeq && e.Seq < o.mainSeq {
@@ -468,6 +475,9 @@ func c07Scenarios(tier string) []Scenario {
 		}
 		if tier == "thorough" || k == "walk" {
 			add(c07Params{Kind: k, Stage: "flushflush2", FlushMode: "cancel", Gated: true, Rel: "free", Dotu: true, P: ffP})
+		}
+		if tier == "thorough" || k == "read" || k == "stat" {
+			add(c07Params{Kind: k, Stage: "flushflush3", FlushMode: "none", Gated: true, Rel: "late", Maxpend: 0, Dotu: k == "stat", P: ffP + 1})
 		}
 		add(c07Params{Kind: k, Stage: "sametag", FlushMode: "none", Maxpend: 0, P: 2})
 		add(c07Params{Kind: k, Stage: "sametag", FlushMode: "cancel", Gated: true, Rel: "late", Maxpend: 2, Dotu: true, P: 2})
